@@ -187,6 +187,27 @@ class H(S.Hooks):
         # `setattr(model, "1a", v)`, which modelx accepts: more than the property states - DESIGN 6.4, false alarms.)
 
 
+class HB(H):
+    """the hooks of C11 plus the correspondence with the mechanism model (driver layer `smech`) - used for the
+    histories with multi-member calls, which no other property runs"""
+    def start(self, live, stats):
+        H.start(self, live, stats)
+        from ..mechworld import MechCorr
+        self.mech = MechCorr()
+
+    def before(self, live, ops, k, op, stats):
+        H.before(self, live, ops, k, op, stats)
+        self.mech.before(live, k, op)
+
+    def after(self, live, ops, k, op, result, out, stats):
+        if op[0] != "evalall":
+            self.mech.after(live, k, op, result)
+        H.after(self, live, ops, k, op, result, out, stats)
+
+    def end(self, live, ops, out, stats):
+        self.mech.finish(out, lambda kk: S.hist_json(ops, kk), stats)
+
+
 def _diff(a, b):
     out = []
     for p in sorted(set(a["spaces"]) | set(b["spaces"])):
@@ -217,7 +238,7 @@ def run(ctx, out):
                              "for (model-level reference of the name created before / after / not at all), followed by "
                              "re-deriving edits; %d contain a refused edit" % (len(fam), refused))
     api.run_struct(ctx, out, stats, H, CFG, S.run_one)
-    batch_api.run(ctx, out, stats, H, CFG, S.run_one, S.run_family)
+    batch_api.run(ctx, out, stats, HB, CFG, S.run_one, S.run_family)
     fam = S.naming_family()
     refused = S.run_family(out, stats, fam, H, CFG, "naming_family")
     out.coverage["evaluations"] += len(fam)
@@ -251,4 +272,6 @@ def run(ctx, out):
 
 
 def replay(ctx, payload, out):
-    S.replay_struct(payload, out, H, CFG)
+    ops = (payload.get("history") or {}).get("ops") or []
+    batch = any(isinstance(o, list) and o and o[0] in batch_api.KINDS for o in ops)
+    S.replay_struct(payload, out, HB if batch else H, CFG)
